@@ -5,6 +5,7 @@
 #include <potassco/string_convert.h>
 #include <potassco/basic_types.h>
 #include <potassco/theory_data.h>
+#include <potassco/clingo.h>
 #include <cerrno>
 #include <cstdlib>
 using namespace hv;
@@ -32,7 +33,46 @@ template <class E> std::string enumRT() {
 	}
 	E bad; bool okBad = Potassco::string_cast(str(ec.max + 1), bad);
 	res += okBad ? "ACCEPTS-OUT-OF-RANGE" : "rejects-max+1";
+	// a constant's name followed by more identifier characters, or cut short, is not that constant
+	std::vector<std::string> names;
+	for (int v = ec.min; v <= ec.max; ++v) { if (ec.isValid(v)) { std::string s; Potassco::xconvert(s, static_cast<E>(static_cast<typename E::E>(v))); names.push_back(s); } }
+	for (std::size_t i = 0; i < names.size(); ++i) {
+		std::string alt[3] = {names[i] + "x", names[i] + "1", names[i].substr(0, names[i].size() - 1)};
+		for (int k = 0; k < 3; ++k) {
+			bool isName = false;
+			for (std::size_t j = 0; j < names.size(); ++j) isName = isName || names[j] == alt[k];
+			E out; if (!isName && !alt[k].empty() && Potassco::string_cast(alt[k], out)) res += ",!ACCEPTS-NON-CONSTANT:" + alt[k];
+		}
+	}
+	// inside a pair and a list
+	for (int v = ec.min; v <= ec.max; ++v) {
+		if (!ec.isValid(v)) continue;
+		E e = static_cast<E>(static_cast<typename E::E>(v));
+		std::string s; Potassco::xconvert(s, std::make_pair(e, 7));
+		std::pair<E, int> pb; bool okp = Potassco::string_cast(s, pb) && static_cast<int>(pb.first) == v && pb.second == 7;
+		std::vector<E> ve(2, e); std::string sv; Potassco::xconvert(sv, ve);
+		std::vector<E> vb; bool okv = Potassco::string_cast(sv, vb) && vb.size() == 2 && static_cast<int>(vb[0]) == v && static_cast<int>(vb[1]) == v;
+		res += std::string(",") + (okp ? "+" : "!pair:" + s) + (okv ? "+" : "!vec:" + sv);
+	}
 	return res;
+}
+// `sc enumc <hex rep> <min> <max> s <hex text>` : EnumClass::convert(text, out)  -> n:<consumed>:<value>
+// `sc enumc <hex rep> <min> <max> i <int>`      : EnumClass::convert(int, name)  -> hex of the name | none
+std::string enumClassOp(const Args& a) {
+	if (a.size() != 6) return "bad-op";
+	std::string rep = unhex(a[1]);
+	Potassco::EnumClass ec = {"E", rep.c_str(), std::atoi(a[2].c_str()), std::atoi(a[3].c_str())};
+	if (a[4] == "s") {
+		std::string t = unhex(a[5]); int out = -12345;
+		std::size_t n = ec.convert(t.c_str(), out);
+		if (n > t.size()) return "END-OUT-OF-STRING:" + str((long)n);
+		return "n:" + str((long)n) + ":" + (n ? str(out) : std::string("-"));
+	}
+	if (a[4] == "i") {
+		const char* nm = 0; std::size_t n = ec.convert(std::atoi(a[5].c_str()), nm);
+		return n ? hex(std::string(nm, n)) : std::string("none");
+	}
+	return "bad-op";
 }
 std::string run_sc(const Args& a) {
 	if (a.size() < 2) return "bad-op";
@@ -43,8 +83,13 @@ std::string run_sc(const Args& a) {
 		if (a[1] == "Value_t") return enumRT<Potassco::Value_t>();
 		if (a[1] == "Heuristic_t") return enumRT<Potassco::Heuristic_t>();
 		if (a[1] == "Directive_t") return enumRT<Potassco::Directive_t>();
+		if (a[1] == "Theory_t") return enumRT<Potassco::Theory_t>();
+		if (a[1] == "Tuple_t") return enumRT<Potassco::Tuple_t>();
+		if (a[1] == "Clause_t") return enumRT<Potassco::Clause_t>();
+		if (a[1] == "Statistics_t") return enumRT<Potassco::Statistics_t>();
 		return "bad-op";
 	}
+	if (t == "enumc") return enumClassOp(a);
 	if (a.size() != 3) return "bad-op";
 	bool stale = a[1] == "P";
 	if (a[1] == "p" || a[1] == "P") {
